@@ -279,37 +279,43 @@ func c18Extras3(c *Ctx) {
 // range- and minimality-checked).
 func c19Extras3(c *Ctx) {
 	w := c.W
-	fn := w.Fn("z/encoding/asn1.parseTagAndLength")
-	if fn == nil {
+	root := w.Fn("z/encoding/asn1.parseTagAndLength")
+	if root == nil {
 		c.Undecided("R-VSET", "encoding/asn1.parseTagAndLength", "anchor", "-", "not found")
 		return
 	}
 	n := 0
-	for _, b := range fn.Blocks {
-		for _, in := range b.Instrs {
-			bo, ok := in.(*ssa.BinOp)
-			if !ok || bo.Op != token.SHL || !strings.HasSuffix(Expr(bo.X), ".length") {
-				continue
+	// the accumulation may sit in a helper only parseTagAndLength calls; it is then read in that call's context
+	for _, fn := range w.familyOf(root) {
+		fn := fn
+		w.inCallerContext(fn, func() {
+			for _, b := range fn.Blocks {
+				for _, in := range b.Instrs {
+					bo, ok := in.(*ssa.BinOp)
+					if !ok || bo.Op != token.SHL || !strings.HasSuffix(Expr(bo.X), ".length") {
+						continue
+					}
+					n++
+					c.Sites++
+					acc := Expr(bo.X)
+					c.Cut(CutSpec{Rule: "R-VSET", Fn: fn, Label: fmt.Sprintf("the length accumulator is shifted (#%d) only past a test that it is below 2^23 (no octet of an over-long length is shifted out)", n), MinTargets: -1,
+						Target: func(i2 ssa.Instruction, _ resolver) bool { return i2 == ssa.Instruction(bo) },
+						Cut: func(f Fact) bool {
+							if f.Op != "lt" || f.Y == nil || Expr(f.X) != acc {
+								return false
+							}
+							k, ok := f.Y.(*ssa.Const)
+							if !ok || k.Value == nil {
+								return false
+							}
+							v, exact := constantInt64(k)
+							return exact && v > 0 && v <= 1<<23
+						}})
+				}
 			}
-			n++
-			c.Sites++
-			acc := Expr(bo.X)
-			c.Cut(CutSpec{Rule: "R-VSET", Fn: fn, Label: fmt.Sprintf("the length accumulator is shifted (#%d) only past a test that it is below 2^23 (no octet of an over-long length is shifted out)", n), MinTargets: -1,
-				Target: func(i2 ssa.Instruction, _ resolver) bool { return i2 == ssa.Instruction(bo) },
-				Cut: func(f Fact) bool {
-					if f.Op != "lt" || f.Y == nil || Expr(f.X) != acc {
-						return false
-					}
-					k, ok := f.Y.(*ssa.Const)
-					if !ok || k.Value == nil {
-						return false
-					}
-					v, exact := constantInt64(k)
-					return exact && v > 0 && v <= 1<<23
-				}})
-		}
+		})
 	}
-	c.Check(n >= 1, "R-VSET", "encoding/asn1.parseTagAndLength", "shift of the length accumulator found", w.Pos(fn.Pos()), fmt.Sprint(n))
+	c.Check(n >= 1, "R-VSET", "encoding/asn1.parseTagAndLength", "shift of the length accumulator found", w.Pos(root.Pos()), fmt.Sprint(n))
 }
 
 func constantInt64(k *ssa.Const) (int64, bool) {
